@@ -150,7 +150,7 @@ CHECKS = {
 # sentences appended to the level text: legs added after the seeded-change rounds 4 and 5 (DESIGN.md 8.3)
 EXTRA = {
     'C01': ' Quick tier: all pairs N<=4; products between different operand classes in both orders; one operand object (list element, tensor-phase Pauli, earlier result) reused for all right operands with list, operands and kept results re-read afterwards (both packages). Use -> in-place rotate_by / transform_by (global and masked) -> use again on one operand object (Pauli, sum, reduce()d and unreduced polynomial, monomial), both packages.',
-    'C02': ' Masks of size n<=N incl. the explicit all-True mask and the 3-qubit masks of N=4; the same generator object reused on single operands and checked afterwards.',
+    'C02': ' Masks of size n<=N incl. the explicit all-True mask and the 3-qubit masks of N=4; the same generator object reused on single operands and checked afterwards. Generators taken as elements of a PauliList (views) used repeatedly, lender unchanged (both packages).',
     'C03': ' Use -> evolve in place -> use histories on one map object; sequences of 2-3 embeddings on disjoint masks (N<=4, holes included), both packages. Results of identity.transform_by(M) / compose(M) overwritten afterwards; rotation gate compiled, generator replaced, compiled again.',
     'C04': ' Every qubit relabeling of N<=4 as first / second operand; sign-only and identity operands with the result overwritten afterwards; inverses / compositions of N<=4 maps kept and re-read after later calls. Compiled-map checks also after compile -> extend -> compile.',
     'C05': ' take/compile/forward/backward of all short gate programs (N=2 <=3 gates, N=3 3-gate sub-alphabets) on signed states of every rank; N=3 sweep of 402 (4002) tableaux x ~990 operations. torchclifford states: every signed generator as a literal and as an element borrowed from a PauliList, applied twice with the same object, then transform_by(rotation map); invariant and U^dag rho U after every step.',
